@@ -1202,3 +1202,87 @@ Theorem C02_bridge_bootstrap_table : forall cs s tbl r,
   exists B, length B = length tbl /\ X12.BridgeDyn.table_agrees cs tbl B.
 Proof. exact X12.BridgeDyn.table_from_decoder. Qed.
 Print Assumptions C02_bridge_bootstrap_table.
+
+(* ================================================================================================ *)
+(* Round 6, fourth layer — attributes through C01's formats and THE WHOLE FILE for a fragment of trees
+   (coq/X12/BridgeFmt.v, BridgeFile.v). *)
+From FB Require C01.Formats X12.BridgeFmt X12.BridgeFile.
+
+(* decoder to reader, attribute by attribute, through C01's FAttr and its name-selected formats: what C02's decoder
+   accepts as a SourceFile / ConstantValue / LineNumberTable / Code attribute (Code: max_stack, max_locals, code,
+   exception table with catch types, and inside only LineNumberTable attributes), C01's format reader reads from
+   the same bytes followed by anything, to the explicit value, leaving the same rest.  names_ok dec: the decoder maps
+   the four (ASCII) attribute names to C01's name constants *)
+Theorem C02_bridge_attr_formats : forall impl dec cs, X12.BridgeFmt.names_ok dec = true ->
+  (forall s sf r t, p_attr AtClass (cslots cs 1) s = Some (ASourceFile sf, r) ->
+     C01.Fmt.rd_fmt impl dec (C01.ClassFile.acc (X12.BridgePool.rpool dec cs)) (C01.Fmt.FAttr C01.ClassFile.class_sel) (s ++ t)
+     = Ok (X12.BridgeFmt.v_SourceFile dec sf, r ++ t)) /\
+  (forall s v r t, p_attr AtField (cslots cs 1) s = Some (AConstantValue v, r) ->
+     C01.Fmt.rd_fmt impl dec (C01.ClassFile.acc (X12.BridgePool.rpool dec cs)) (C01.Fmt.FAttr C01.ClassFile.field_sel) (s ++ t)
+     = Ok (X12.BridgeFmt.v_ConstantValue dec v, r ++ t)) /\
+  (forall s l r t, p_attr0 AtCode (cslots cs 1) s = Some (ALineNumberTable l, r) ->
+     C01.Fmt.rd_fmt impl dec (C01.ClassFile.acc (X12.BridgePool.rpool dec cs)) (C01.Fmt.FAttr C01.ClassFile.code_sel) (s ++ t)
+     = Ok (X12.BridgeFmt.v_LineNumberTable l, r ++ t)) /\
+  (forall s k r t, X12.BridgeFmt.code_okP k -> p_attr AtMethod (cslots cs 1) s = Some (ACode k, r) ->
+     C01.Fmt.rd_fmt impl dec (C01.ClassFile.acc (X12.BridgePool.rpool dec cs)) (C01.Fmt.FAttr C01.ClassFile.method_sel) (s ++ t)
+     = Ok (X12.BridgeFmt.v_Code dec k, r ++ t)).
+Proof.
+  exact (fun impl dec cs Hn => conj (fun s sf r t => X12.BridgeFmt.attr_SourceFile impl dec cs s sf r t Hn)
+    (conj (fun s v r t => X12.BridgeFmt.attr_ConstantValue impl dec cs s v r t Hn)
+    (conj (fun s l r t => X12.BridgeFmt.attr_LineNumberTable impl dec cs s l r t Hn)
+          (fun s k r t Hk => X12.BridgeFmt.attr_Code impl dec cs s k r t Hn Hk)))).
+Qed.
+Print Assumptions C02_bridge_attr_formats.
+
+(* THE WHOLE FILE.  Fragment (dclass_frag, decidable on facts_of t aux; in_fragment t aux): class attributes ⊆
+   {SourceFile}, field attributes ⊆ {ConstantValue}, method attributes ⊆ {Code}, attributes of a Code attribute ⊆
+   {LineNumberTable}; any number of members, any code, exception tables with catch types, any pool.  For such a
+   cclass_ok tree inside the reader's version gate: C01's read_class on the bytes write_class_aux wrote is C01's own
+   build_class applied to the pool as read and to the explicitly given values of the head, the class attributes, the
+   fields and the methods — the reader's whole parsing phase (gate, pool, head, both skip passes, class_attrs_fmt,
+   fields_fmt, methods_fmt, every attribute through its format) is computed from the tree's facts; each method's Code
+   value holds max_stack, max_locals, the code array and the exception entries of C02_bridge_code_attr *)
+Theorem C02_bridge_class_file : forall impl dec t bs aux d,
+  cclass_ok t = true -> write_class_aux t = WOK (bs, aux) ->
+  C01.Attr.header_ok C01.Tables.magic (Z.to_N (k_minor t)) (Z.to_N (k_major t)) = true ->
+  X12.BridgeClass.pool_utf8_ok dec (a_pool aux) = true -> X12.BridgeFmt.names_ok dec = true ->
+  facts_of t aux = Some d -> X12.BridgeFile.dclass_frag d = true ->
+  exists cs,
+    rev (p_inner (a_pool aux)) = map mk cs /\
+    C01.ClassFile.read_class impl dec bs
+    = C01.ClassFile.build_class impl (X12.BridgePool.rpool dec cs) (Z.to_N (k_minor t)) (Z.to_N (k_major t))
+        (X12.BridgeClass.head_val dec t)
+        (C01.Fmt.VList (map (X12.BridgeFile.cattr_val dec) (d_attrs d)))
+        (C01.Fmt.VList (map (X12.BridgeFile.member_val dec 1%N (X12.BridgeFile.fattr_val dec)) (d_fields d)))
+        (C01.Fmt.VList (map (X12.BridgeFile.member_val dec 2%N (X12.BridgeFile.mattr_val dec)) (d_methods d))).
+Proof. exact X12.BridgeFile.class_file_read. Qed.
+Print Assumptions C02_bridge_class_file.
+
+(* non-vacuity: class A extends O with SourceFile, a field with ConstantValue -5, a method m()V whose Code has two
+   labelled instructions, an exception range catching O and a LineNumberTable: in the fragment; and C01's read_class on
+   the written bytes, computed, succeeds with one field and one method whose code has 2 instructions, 1 exception
+   range, 1 line number, max_stack 2 *)
+Theorem C02_bridge_class_file_example : exists bs aux d cs,
+  write_class_aux X12.BridgeFile.ex_file = WOK (bs, aux) /\ cclass_ok X12.BridgeFile.ex_file = true /\
+  facts_of X12.BridgeFile.ex_file aux = Some d /\ X12.BridgeFile.in_fragment X12.BridgeFile.ex_file aux = true /\
+  C01.ClassFile.read_class true C01.Mutf8.mutf8_dec bs
+  = C01.ClassFile.build_class true (X12.BridgePool.rpool C01.Mutf8.mutf8_dec cs) 0%N 61%N
+      (X12.BridgeClass.head_val C01.Mutf8.mutf8_dec X12.BridgeFile.ex_file)
+      (C01.Fmt.VList (map (X12.BridgeFile.cattr_val C01.Mutf8.mutf8_dec) (d_attrs d)))
+      (C01.Fmt.VList (map (X12.BridgeFile.member_val C01.Mutf8.mutf8_dec 1%N (X12.BridgeFile.fattr_val C01.Mutf8.mutf8_dec)) (d_fields d)))
+      (C01.Fmt.VList (map (X12.BridgeFile.member_val C01.Mutf8.mutf8_dec 2%N (X12.BridgeFile.mattr_val C01.Mutf8.mutf8_dec)) (d_methods d))) /\
+  X12.BridgeFile.desc_check (C01.ClassFile.read_class true C01.Mutf8.mutf8_dec bs) = true.
+Proof. exact X12.BridgeFile.class_file_example. Qed.
+Print Assumptions C02_bridge_class_file_example.
+
+(* the BootstrapMethods table through C01's own f_BootstrapMethods format and bsm_entry: the table C01 extracts from
+   the attribute agrees (table_agrees) with the table C02's decoder reads — the hypothesis of
+   C02_bridge_loadable_read / C02_bridge_indy_read *)
+Theorem C02_bridge_bootstrap_table_read : forall impl dec cs s tbl r t,
+  p_list16 (X12.BridgeDyn.p_bsm (cslots cs 1)) s = Some (tbl, r) ->
+  exists vs B,
+    C01.Fmt.rd_fmt impl dec (C01.ClassFile.acc (X12.BridgePool.rpool dec cs)) C01.Formats.f_BootstrapMethods (s ++ t)
+    = Ok (C01.Fmt.VList vs, r ++ t) /\
+    C01.Pool.map_res C01.ClassFile.bsm_entry vs = Ok B /\ X12.BridgeDyn.table_agrees cs tbl B.
+Proof. exact X12.BridgeFile.bootstrap_table_read. Qed.
+Print Assumptions C02_bridge_bootstrap_table_read.
